@@ -43,17 +43,17 @@ Section WithOracle.
     (clen s < f)%nat ->
     exists more lt1,
       lex_loop gbk_runes f prev2 prev1 s acc = Ok (rev acc ++ more ++ [lt1]) /\
-      tk (lt lt1) = TkEOF /\ Forall (fun t => tk (lt t) <> TkEOF) more.
+      tk (lt lt1) = TkEOF /\ Forall (fun t => tk (lt t) <> TkEOF) more /\ (length more <= clen s)%nat.
   Proof.
     induction f as [|f IH]; intros prev2 prev1 s acc Hf; [lia|]. cbn [lex_loop].
     destruct (next_token gbk_runes prev2 prev1 s) as [lt1 s1] eqn:Hn.
     apply next_token_progress in Hn as [Hle Hlt].
     destruct (tkind_eq_dec (tk (lt lt1)) TkEOF) as [He|Hne].
-    - rewrite He. exists [], lt1. cbn [rev app]. repeat split; [assumption|constructor].
+    - rewrite He. exists [], lt1. cbn [rev app length]. repeat split; [assumption|constructor|lia].
     - rewrite (match_eof _ _ _ Hne). specialize (Hlt Hne).
-      destruct (IH prev1 (Some (lt lt1)) s1 (lt1 :: acc) ltac:(lia)) as (more & lt2 & Heq & Hk & Hall).
-      exists (lt1 :: more), lt2. rewrite Heq. cbn [rev]. rewrite <- !app_assoc. cbn [app].
-      repeat split; [assumption|constructor; assumption].
+      destruct (IH prev1 (Some (lt lt1)) s1 (lt1 :: acc) ltac:(lia)) as (more & lt2 & Heq & Hk & Hall & Hlen).
+      exists (lt1 :: more), lt2. rewrite Heq. cbn [rev length]. rewrite <- !app_assoc. cbn [app].
+      repeat split; [assumption|constructor; assumption|lia].
   Qed.
 
   (* above the bound, the outer loop does not depend on the fuel either *)
@@ -72,12 +72,13 @@ Section WithOracle.
 
   Theorem lex_all_shape bs :
     exists more lt1, lex_all gbk_runes bs = Ok (more ++ [lt1]) /\
-                     tk (lt lt1) = TkEOF /\ Forall (fun t => tk (lt t) <> TkEOF) more.
+                     tk (lt lt1) = TkEOF /\ Forall (fun t => tk (lt t) <> TkEOF) more /\
+                     (length more <= length bs)%nat.
   Proof.
     unfold lex_all. pose proof (skip_first_line_le bs) as Hl.
     destruct (lex_loop_ok (S (S (length bs))) None None (skip_first_line bs) [] ltac:(lia))
-      as (more & lt1 & Heq & Hk & Hall).
-    exists more, lt1. rewrite Heq. cbn [rev app]. auto.
+      as (more & lt1 & Heq & Hk & Hall & Hlen).
+    exists more, lt1. rewrite Heq. cbn [rev app]. repeat split; [assumption|assumption|lia].
   Qed.
 
   Theorem lex_all_total : forall bs, exists ts, lex_all gbk_runes bs = Ok ts.
@@ -85,11 +86,18 @@ Section WithOracle.
 
   Theorem lex_all_wf : forall bs ts, lex_all gbk_runes bs = Ok ts -> wf_tokens ts.
   Proof.
-    intros bs ts H. destruct (lex_all_shape bs) as (more & lt1 & Heq & Hk & Hall).
+    intros bs ts H. destruct (lex_all_shape bs) as (more & lt1 & Heq & Hk & Hall & _).
     rewrite Heq in H. injection H as <-. unfold wf_tokens. repeat split.
     - intros Hnil. apply app_eq_nil in Hnil as [_ Hnil]. discriminate.
     - rewrite last_last. exact Hk.
     - intros t Hin. rewrite removelast_last in Hin. rewrite Forall_forall in Hall. apply Hall. exact Hin.
+  Qed.
+
+  (* every token but the EOF one consumed at least one byte: the token list is at most one longer than the input *)
+  Theorem lex_all_length : forall bs ts, lex_all gbk_runes bs = Ok ts -> (length ts <= S (length bs))%nat.
+  Proof.
+    intros bs ts H. destruct (lex_all_shape bs) as (more & lt1 & Heq & _ & _ & Hlen).
+    rewrite Heq in H. injection H as <-. rewrite app_length. cbn [length]. lia.
   Qed.
 
   (* the lexer model has no Fault site: the only non-Ok value it can produce is OutOfFuel, which lex_all_total excludes *)
@@ -145,6 +153,7 @@ Proof. intros Hf. unfold rune_count. apply rune_count_f_irrel; lia. Qed.
 
 Print Assumptions lex_all_total.
 Print Assumptions lex_all_wf.
+Print Assumptions lex_all_length.
 Print Assumptions lex_all_no_fault.
 Print Assumptions skip_ws_caller.
 Print Assumptions scan_short_caller.
